@@ -11,6 +11,7 @@ import JSV.Proofs.Defined
 import JSV.Proofs.DefinedGuarded
 import JSV.Proofs.FloatMult
 import JSV.Generated.Facts
+import JSV.Proofs.SpecLaws
 namespace JSV.C01
 open JSV Go GoVal Refine
 
@@ -535,5 +536,256 @@ theorem unevaluated_after_in_place :
       "AdditionalItems", "Contains"].all fun k =>
         Generated.validateReadOrder.idxOf k < Generated.validateReadOrder.idxOf "UnevaluatedItems") = true := by
   decide
+
+/-! ## algebraic laws
+
+Laws of JSON-Schema validity that every reader of the specification expects, proved of the Spec for EVERY environment,
+fuel, dynamic scope and instance, and transferred to the evaluator through `validate_refines_spec`.  A law speaks of the
+content of schema objects of the store: `Laws.keywords n = { allOf := some [t] }` says that the only keyword of `n` that
+validation reads is `allOf: [t]` (`$id`, `$defs`, `title`, `default`, `format` … may be present).  An application at the
+object `s` with scope `scope` applies the subschemas of `s` with scope `scope ++ [s]` and one unit of fuel less; the laws are
+equalities of the three-valued outcomes (`none`: undefined with this fuel, `some none`: invalid, `some (some ev)`: valid
+with evaluated sets `ev`), so they hold "whenever defined" and also preserve undefinedness.  The evaluator corollaries
+(`…_go`) assume that the Spec decides the subschema application (`C01.spec_defined` gives that for guarded schemas). -/
+
+section laws
+variable (env : Spec.Env) (fuel : Nat) (scope : List NodeId) (s : NodeId) (n : Node) (j : Json)
+
+/-! ### 1. `true` and `false` -/
+
+/-- `true` / `{}`: a schema object without validation keywords accepts every instance and evaluates nothing -/
+theorem true_accepts (hn : env.st.get? s = some n) (hk : Laws.keywords n = {}) :
+    Spec.evalFuel env (fuel + 1) scope s j = some (some {}) := by
+  rw [Laws.evalFuel_succ_of env fuel scope s j n {} hn hk, Laws.specBody_empty]
+
+/-- `false` / `{"not": {}}` (what `false` is unmarshalled to) rejects every instance -/
+theorem false_rejects (t : NodeId) (m : Node) (hn : env.st.get? s = some n) (hk : Laws.keywords n = { not := some t })
+    (hm : env.st.get? t = some m) (hkm : Laws.keywords m = {}) :
+    Spec.evalFuel env (fuel + 2) scope s j = some none := by
+  rw [Laws.evalFuel_succ_of env (fuel + 1) scope s j n _ hn hk, Laws.specBody_not,
+    Laws.kwNot_eq _ _ _ t rfl, true_accepts env fuel _ t m j hm hkm]
+  rfl
+
+/-! ### 2. `allOf`, `anyOf`, `oneOf` with one branch or none -/
+
+/-- `allOf [t]` is `t`: same verdict, same evaluated sets (`t` applied with `s` on the dynamic scope) -/
+theorem allOf_singleton (t : NodeId) (hn : env.st.get? s = some n) (hk : Laws.keywords n = { allOf := some [t] }) :
+    Spec.evalFuel env (fuel + 1) scope s j = Spec.evalFuel env fuel (scope ++ [s]) t j := by
+  rw [Laws.evalFuel_succ_of env fuel scope s j n _ hn hk, Laws.specBody_allOf, Laws.kwAllOf_single _ _ _ t rfl]
+
+/-- `anyOf [t]` is `t` -/
+theorem anyOf_singleton (t : NodeId) (hn : env.st.get? s = some n) (hk : Laws.keywords n = { anyOf := some [t] }) :
+    Spec.evalFuel env (fuel + 1) scope s j = Spec.evalFuel env fuel (scope ++ [s]) t j := by
+  rw [Laws.evalFuel_succ_of env fuel scope s j n _ hn hk, Laws.specBody_anyOf, Laws.kwAnyOf_single _ _ _ t rfl]
+
+/-- `oneOf [t]` is `t` -/
+theorem oneOf_singleton (t : NodeId) (hn : env.st.get? s = some n) (hk : Laws.keywords n = { oneOf := some [t] }) :
+    Spec.evalFuel env (fuel + 1) scope s j = Spec.evalFuel env fuel (scope ++ [s]) t j := by
+  rw [Laws.evalFuel_succ_of env fuel scope s j n _ hn hk, Laws.specBody_oneOf, Laws.kwOneOf_single _ _ _ t rfl]
+
+/-- `allOf []` accepts every instance (and evaluates nothing) -/
+theorem allOf_empty (hn : env.st.get? s = some n) (hk : Laws.keywords n = { allOf := some [] }) :
+    Spec.evalFuel env (fuel + 1) scope s j = some (some {}) := by
+  rw [Laws.evalFuel_succ_of env fuel scope s j n _ hn hk, Laws.specBody_allOf, Laws.kwAllOf_nil _ _ _ rfl]
+
+/-- `anyOf []` rejects every instance -/
+theorem anyOf_empty (hn : env.st.get? s = some n) (hk : Laws.keywords n = { anyOf := some [] }) :
+    Spec.evalFuel env (fuel + 1) scope s j = some none := by
+  rw [Laws.evalFuel_succ_of env fuel scope s j n _ hn hk, Laws.specBody_anyOf, Laws.kwAnyOf_nil _ _ _ rfl]
+
+/-- `oneOf []` rejects every instance -/
+theorem oneOf_empty (hn : env.st.get? s = some n) (hk : Laws.keywords n = { oneOf := some [] }) :
+    Spec.evalFuel env (fuel + 1) scope s j = some none := by
+  rw [Laws.evalFuel_succ_of env fuel scope s j n _ hn hk, Laws.specBody_oneOf, Laws.kwOneOf_nil _ _ _ rfl]
+
+/-! ### 3. double negation -/
+
+/-- `not (not t)`: the verdict of `t`, and NOTHING evaluated (annotations do not survive `not`; `C07.not_not_drops_annotations`
+    states the evaluator half) -/
+theorem not_not (m : NodeId) (nm : Node) (t : NodeId) (hn : env.st.get? s = some n)
+    (hk : Laws.keywords n = { not := some m }) (hm : env.st.get? m = some nm) (hkm : Laws.keywords nm = { not := some t }) :
+    Spec.evalFuel env (fuel + 2) scope s j
+      = (Spec.evalFuel env fuel (scope ++ [s] ++ [m]) t j).map fun r => r.map fun _ => {} := by
+  rw [Laws.evalFuel_succ_of env (fuel + 1) scope s j n _ hn hk, Laws.specBody_not, Laws.kwNot_eq _ _ _ m rfl,
+    Laws.evalFuel_succ_of env fuel _ m j nm _ hm hkm, Laws.specBody_not, Laws.kwNot_eq _ _ _ t rfl]
+  cases Spec.evalFuel env fuel (scope ++ [s] ++ [m]) t j with
+  | none => rfl
+  | some r => cases r <;> rfl
+
+/-- in particular `not (not t)` and `t` have the same verdict -/
+theorem not_not_verdict (m : NodeId) (nm : Node) (t : NodeId) (hn : env.st.get? s = some n)
+    (hk : Laws.keywords n = { not := some m }) (hm : env.st.get? m = some nm) (hkm : Laws.keywords nm = { not := some t }) :
+    (Spec.evalFuel env (fuel + 2) scope s j).map (·.isSome)
+      = (Spec.evalFuel env fuel (scope ++ [s] ++ [m]) t j).map (·.isSome) := by
+  rw [not_not env fuel scope s n j m nm t hn hk hm hkm]
+  cases Spec.evalFuel env fuel (scope ++ [s] ++ [m]) t j with
+  | none => rfl
+  | some r => cases r <;> rfl
+
+end laws
+
+/-! ### the same laws for the evaluator -/
+
+section laws_go
+variable (env : VEnv) (hwf : EnvWF env) (hst : StoreWF env.st) (fuel : Nat) (stack : List NodeId)
+  (hstack : ∀ x, x ∈ stack → (env.info? x).isSome = true) (s : NodeId) (n : Node) (j : Json) (hj : Json.WF j = true)
+include hwf hst hstack hj
+
+/-- evaluator: `{}` returns nil on every instance, with annotations that mark nothing as evaluated -/
+theorem true_accepts_go (hn : env.st.get? s = some n) (hk : Laws.keywords n = {}) :
+    ∃ a, Go.validateFuel env (fuel + 1) stack (GoVal.ofJson j) s = .ok a ∧
+      (∀ k, k ∈ keysOf j → γprop a k = false) ∧ (∀ i, i < lenOf j → γitem a i = false) := by
+  obtain ⟨a, ha, hm⟩ := Laws.go_anns env hwf hst (fuel + 1) stack hstack s j hj {}
+    (true_accepts (specEnvOf env) fuel stack s n j hn hk)
+  exact ⟨a, ha, (Laws.AnnsMatch_empty_iff j a).1 hm⟩
+
+/-- evaluator: `{"not": {}}` returns an error on every instance -/
+theorem false_rejects_go (t : NodeId) (m : Node) (hn : env.st.get? s = some n) (hk : Laws.keywords n = { not := some t })
+    (hm : env.st.get? t = some m) (hkm : Laws.keywords m = {}) :
+    Go.validateFuel env (fuel + 2) stack (GoVal.ofJson j) s = .err := by
+  have hrel := validate_refines_spec env hwf hst (fuel + 2) stack hstack s j hj
+  rw [false_rejects (specEnvOf env) fuel stack s n j t m hn hk hm hkm] at hrel
+  exact hrel
+
+/-- evaluator: `allOf [t]` returns what `t` returns — the same verdict, annotations for the same sets -/
+theorem allOf_singleton_go (t : NodeId) (hn : env.st.get? s = some n) (hk : Laws.keywords n = { allOf := some [t] })
+    (hdef : (Spec.evalFuel (specEnvOf env) fuel (stack ++ [s]) t j).isSome = true) :
+    (Go.validateFuel env (fuel + 1) stack (GoVal.ofJson j) s).verdict
+      = (Go.validateFuel env fuel (stack ++ [s]) (GoVal.ofJson j) t).verdict ∧
+    ∀ a1 a2, Go.validateFuel env (fuel + 1) stack (GoVal.ofJson j) s = .ok a1 →
+      Go.validateFuel env fuel (stack ++ [s]) (GoVal.ofJson j) t = .ok a2 →
+      (∀ k, k ∈ keysOf j → γprop a1 k = γprop a2 k) ∧ (∀ i, i < lenOf j → γitem a1 i = γitem a2 i) :=
+  Laws.go_same env hwf hst _ _ _ _ hstack (Laws.stack_snoc env hwf stack hstack s n hn) s t j hj
+    (allOf_singleton (specEnvOf env) fuel stack s n j t hn hk) hdef
+
+/-- evaluator: `anyOf [t]` returns what `t` returns -/
+theorem anyOf_singleton_go (t : NodeId) (hn : env.st.get? s = some n) (hk : Laws.keywords n = { anyOf := some [t] })
+    (hdef : (Spec.evalFuel (specEnvOf env) fuel (stack ++ [s]) t j).isSome = true) :
+    (Go.validateFuel env (fuel + 1) stack (GoVal.ofJson j) s).verdict
+      = (Go.validateFuel env fuel (stack ++ [s]) (GoVal.ofJson j) t).verdict ∧
+    ∀ a1 a2, Go.validateFuel env (fuel + 1) stack (GoVal.ofJson j) s = .ok a1 →
+      Go.validateFuel env fuel (stack ++ [s]) (GoVal.ofJson j) t = .ok a2 →
+      (∀ k, k ∈ keysOf j → γprop a1 k = γprop a2 k) ∧ (∀ i, i < lenOf j → γitem a1 i = γitem a2 i) :=
+  Laws.go_same env hwf hst _ _ _ _ hstack (Laws.stack_snoc env hwf stack hstack s n hn) s t j hj
+    (anyOf_singleton (specEnvOf env) fuel stack s n j t hn hk) hdef
+
+/-- evaluator: `oneOf [t]` returns what `t` returns -/
+theorem oneOf_singleton_go (t : NodeId) (hn : env.st.get? s = some n) (hk : Laws.keywords n = { oneOf := some [t] })
+    (hdef : (Spec.evalFuel (specEnvOf env) fuel (stack ++ [s]) t j).isSome = true) :
+    (Go.validateFuel env (fuel + 1) stack (GoVal.ofJson j) s).verdict
+      = (Go.validateFuel env fuel (stack ++ [s]) (GoVal.ofJson j) t).verdict ∧
+    ∀ a1 a2, Go.validateFuel env (fuel + 1) stack (GoVal.ofJson j) s = .ok a1 →
+      Go.validateFuel env fuel (stack ++ [s]) (GoVal.ofJson j) t = .ok a2 →
+      (∀ k, k ∈ keysOf j → γprop a1 k = γprop a2 k) ∧ (∀ i, i < lenOf j → γitem a1 i = γitem a2 i) :=
+  Laws.go_same env hwf hst _ _ _ _ hstack (Laws.stack_snoc env hwf stack hstack s n hn) s t j hj
+    (oneOf_singleton (specEnvOf env) fuel stack s n j t hn hk) hdef
+
+/-- evaluator: `allOf []` returns nil on every instance -/
+theorem allOf_empty_go (hn : env.st.get? s = some n) (hk : Laws.keywords n = { allOf := some [] }) :
+    (Go.validateFuel env (fuel + 1) stack (GoVal.ofJson j) s).verdict = some true :=
+  Laws.go_verdict env hwf hst _ stack hstack s j hj _ (allOf_empty (specEnvOf env) fuel stack s n j hn hk)
+
+/-- evaluator: `anyOf []` returns an error on every instance -/
+theorem anyOf_empty_go (hn : env.st.get? s = some n) (hk : Laws.keywords n = { anyOf := some [] }) :
+    (Go.validateFuel env (fuel + 1) stack (GoVal.ofJson j) s).verdict = some false :=
+  Laws.go_verdict env hwf hst _ stack hstack s j hj _ (anyOf_empty (specEnvOf env) fuel stack s n j hn hk)
+
+/-- evaluator: `oneOf []` returns an error on every instance -/
+theorem oneOf_empty_go (hn : env.st.get? s = some n) (hk : Laws.keywords n = { oneOf := some [] }) :
+    (Go.validateFuel env (fuel + 1) stack (GoVal.ofJson j) s).verdict = some false :=
+  Laws.go_verdict env hwf hst _ stack hstack s j hj _ (oneOf_empty (specEnvOf env) fuel stack s n j hn hk)
+
+/-- evaluator: `not (not t)` returns nil exactly when `t` does -/
+theorem not_not_go (m : NodeId) (nm : Node) (t : NodeId) (hn : env.st.get? s = some n)
+    (hk : Laws.keywords n = { not := some m }) (hm : env.st.get? m = some nm) (hkm : Laws.keywords nm = { not := some t })
+    (hdef : (Spec.evalFuel (specEnvOf env) fuel (stack ++ [s] ++ [m]) t j).isSome = true) :
+    (Go.validateFuel env (fuel + 2) stack (GoVal.ofJson j) s).verdict
+      = (Go.validateFuel env fuel (stack ++ [s] ++ [m]) (GoVal.ofJson j) t).verdict := by
+  have hs2 := Laws.stack_snoc env hwf _ (Laws.stack_snoc env hwf stack hstack s n hn) m nm hm
+  have hl := not_not (specEnvOf env) fuel stack s n j m nm t hn hk hm hkm
+  cases hr : Spec.evalFuel (specEnvOf env) fuel (stack ++ [s] ++ [m]) t j with
+  | none => rw [hr] at hdef; cases hdef
+  | some r =>
+    rw [hr] at hl
+    rw [Laws.go_verdict env hwf hst _ _ hs2 t j hj r hr, Laws.go_verdict env hwf hst _ _ hstack s j hj _ hl]
+    cases r <;> rfl
+
+end laws_go
+
+/-! ### the laws instantiated
+
+One store with the schema objects the laws speak of; node 2 is `{"title": "s", "properties": {"a": {"type": "string"}}}`,
+which accepts `{"a": "x"}` evaluating `a`, and rejects `{"a": 1}`. -/
+
+def lawStore : Store := #[
+  /- 0 -/ {},
+  /- 1 -/ { not := some 0 },
+  /- 2 -/ { title := "s", properties := some [("a", 3)] },
+  /- 3 -/ { type := "string" },
+  /- 4 -/ { allOf := some [2], defs := some [("x", 3)] },
+  /- 5 -/ { anyOf := some [2], description := "one branch" },
+  /- 6 -/ { oneOf := some [2] },
+  /- 7 -/ { allOf := some [] },
+  /- 8 -/ { anyOf := some [] },
+  /- 9 -/ { oneOf := some [] },
+  /- 10 -/ { not := some 11 },
+  /- 11 -/ { not := some 2 } ]
+
+def lawEnv : VEnv :=
+  { st := lawStore, draft := .d2020, infos := (List.range lawStore.size).map fun i => (i, { base := some 0 }),
+    reMatch := fun _ _ => false, hash := fun _ => 0 }
+
+theorem lawEnv_wf : EnvWF lawEnv := EnvWF_of_checks lawEnv (by decide) (by decide) (fun _ _ _ => rfl)
+theorem lawEnv_store : StoreWF lawEnv.st := StoreWF_of_check _ (by decide)
+
+def lawGood : Json := .obj [("a", .str "x")]
+def lawBad : Json := .obj [("a", .num 1)]
+
+/-- 1: `{}` (node 0) and `{"not": {}}` (node 1) -/
+example : Spec.evalFuel (specEnvOf lawEnv) 1 [] 0 lawBad = some (some {}) := true_accepts _ 0 [] 0 _ lawBad rfl rfl
+example : Spec.evalFuel (specEnvOf lawEnv) 2 [] 1 lawGood = some none := false_rejects _ 0 [] 1 _ lawGood 0 _ rfl rfl rfl rfl
+example : Go.validateFuel lawEnv 2 [] (GoVal.ofJson lawGood) 1 = .err :=
+  false_rejects_go lawEnv lawEnv_wf lawEnv_store 0 [] (fun _ h => nomatch h) 1 _ lawGood (by decide) 0 _ rfl rfl rfl rfl
+example : (Go.validateFuel lawEnv 1 [] (GoVal.ofJson lawBad) 0).verdict = some true := by decide
+
+/-- 2: `allOf [s]` (node 4, which also carries `$defs`), `anyOf [s]` (node 5), `oneOf [s]` (node 6) against `s` (node 2) -/
+example : Spec.evalFuel (specEnvOf lawEnv) 3 [] 4 lawGood = Spec.evalFuel (specEnvOf lawEnv) 2 [4] 2 lawGood :=
+  allOf_singleton _ 2 [] 4 _ lawGood 2 rfl rfl
+example : Spec.evalFuel (specEnvOf lawEnv) 3 [] 4 lawGood = some (some { props := ["a"] }) := by rfl
+example : Spec.evalFuel (specEnvOf lawEnv) 3 [] 5 lawBad = Spec.evalFuel (specEnvOf lawEnv) 2 [5] 2 lawBad :=
+  anyOf_singleton _ 2 [] 5 _ lawBad 2 rfl rfl
+example : Spec.evalFuel (specEnvOf lawEnv) 3 [] 5 lawBad = some none := by rfl
+example : Spec.evalFuel (specEnvOf lawEnv) 3 [] 6 lawGood = Spec.evalFuel (specEnvOf lawEnv) 2 [6] 2 lawGood :=
+  oneOf_singleton _ 2 [] 6 _ lawGood 2 rfl rfl
+example : (Go.validateFuel lawEnv 3 [] (GoVal.ofJson lawGood) 4).verdict
+    = (Go.validateFuel lawEnv 2 [4] (GoVal.ofJson lawGood) 2).verdict :=
+  (allOf_singleton_go lawEnv lawEnv_wf lawEnv_store 2 [] (fun _ h => nomatch h) 4 _ lawGood (by decide) 2 rfl rfl
+    (by decide)).1
+example : (Go.validateFuel lawEnv 3 [] (GoVal.ofJson lawGood) 4).verdict = some true := by decide
+example : (Go.validateFuel lawEnv 3 [] (GoVal.ofJson lawBad) 5).verdict
+    = (Go.validateFuel lawEnv 2 [5] (GoVal.ofJson lawBad) 2).verdict :=
+  (anyOf_singleton_go lawEnv lawEnv_wf lawEnv_store 2 [] (fun _ h => nomatch h) 5 _ lawBad (by decide) 2 rfl rfl
+    (by decide)).1
+example : (Go.validateFuel lawEnv 3 [] (GoVal.ofJson lawBad) 6).verdict
+    = (Go.validateFuel lawEnv 2 [6] (GoVal.ofJson lawBad) 2).verdict :=
+  (oneOf_singleton_go lawEnv lawEnv_wf lawEnv_store 2 [] (fun _ h => nomatch h) 6 _ lawBad (by decide) 2 rfl rfl
+    (by decide)).1
+example : Spec.evalFuel (specEnvOf lawEnv) 1 [] 7 lawBad = some (some {}) := allOf_empty _ 0 [] 7 _ lawBad rfl rfl
+example : Spec.evalFuel (specEnvOf lawEnv) 1 [] 8 lawGood = some none := anyOf_empty _ 0 [] 8 _ lawGood rfl rfl
+example : Spec.evalFuel (specEnvOf lawEnv) 1 [] 9 lawGood = some none := oneOf_empty _ 0 [] 9 _ lawGood rfl rfl
+example : (Go.validateFuel lawEnv 1 [] (GoVal.ofJson lawGood) 8).verdict = some false :=
+  anyOf_empty_go lawEnv lawEnv_wf lawEnv_store 0 [] (fun _ h => nomatch h) 8 _ lawGood (by decide) rfl rfl
+
+/-- 3: `not (not s)` (node 10 → 11 → 2): valid with NOTHING evaluated where `s` is valid evaluating `a` -/
+example : Spec.evalFuel (specEnvOf lawEnv) 4 [] 10 lawGood
+    = (Spec.evalFuel (specEnvOf lawEnv) 2 [10, 11] 2 lawGood).map fun r => r.map fun _ => {} :=
+  not_not _ 2 [] 10 _ lawGood 11 _ 2 rfl rfl rfl rfl
+example : Spec.evalFuel (specEnvOf lawEnv) 4 [] 10 lawGood = some (some {}) := by rfl
+example : Spec.evalFuel (specEnvOf lawEnv) 2 [10, 11] 2 lawGood = some (some { props := ["a"] }) := by rfl
+example : (Go.validateFuel lawEnv 4 [] (GoVal.ofJson lawBad) 10).verdict
+    = (Go.validateFuel lawEnv 2 [10, 11] (GoVal.ofJson lawBad) 2).verdict :=
+  not_not_go lawEnv lawEnv_wf lawEnv_store 2 [] (fun _ h => nomatch h) 10 _ lawBad (by decide) 11 _ 2 rfl rfl rfl rfl
+    (by decide)
+example : (Go.validateFuel lawEnv 4 [] (GoVal.ofJson lawBad) 10).verdict = some false := by decide
 
 end JSV.C01
